@@ -105,7 +105,8 @@ CHECKS = {
             {"name": "TestC03Swap", "enum": True},
             K,
         ],
-        "assumptions": ["a nondeterministic construct shows a difference within 8 in-process renders x 3 context materialisations (+ 2 fresh processes for every 5th case)"],
+        "assumptions": ["a nondeterministic construct shows a difference within 8 in-process renders x 3 context materialisations (+ 2 fresh processes for every 5th case)",
+                        "the process time zone (TZ=UTC in env.sh) counts as configuration: dates given as integers or strings carry no zone and are formatted in it; time.Time values with a zone of their own must format alike in every process time zone (checked in TestC03Swap)"],
     },
     "C06": {
         "level": "exploration",
